@@ -40,6 +40,14 @@ type PrioSc struct {
 	// fail - and leave nothing running: "nil-handle", "nil-divider", "zero-h",
 	// "nil-output", "nil-feedback".
 	BadOpt string `json:"bad_opt,omitempty"`
+	// LateErr (prio2): the user looks at Err() only once the output channel was seen
+	// closed ("you don't have to read from this channel" while the divider is trusted).
+	LateErr bool `json:"late_err,omitempty"`
+	// LateSilent (dynamic class): every initial input is buffered, input 0 trickles for a
+	// long time, and an unbuffered channel that then stays silent for thousands of idle
+	// rounds is added on the fly; a mark in the middle of the silence asks whether the other
+	// inputs are still being served.
+	LateSilent bool `json:"late_silent,omitempty"`
 	// ReuseKeys: what the caller leaves in the reused map: 0 = a foreign key only,
 	// 1 = nothing, 2 = all but one of the original keys, 3 = the original keys plus a foreign one.
 	ReuseKeys int `json:"reuse_keys,omitempty"`
@@ -93,7 +101,8 @@ const (
 	varAuto = iota // manual handlers stop holding items
 	varHandleCalls
 	varDivCalls
-	varRunning // running Handle calls
+	varRunning      // running Handle calls
+	varOutSeen = 40 // handlers that saw the output closed
 	varSink    = 63
 )
 
@@ -613,11 +622,16 @@ func genPrio(engine, prop string, r *simrt.SplitMix) *PrioSc {
 
 		manualHandlers()
 
+		earlyGraceful := v1 && r.Intn(3) == 0
+		if earlyGraceful {
+			sc.Ctl = append(sc.Ctl, PAction{WaitNs: int64(pick(r, 0, 0, 3, 30)), Kind: "graceful"})
+		}
+
 		sc.Ctl = append(sc.Ctl,
 			PAction{WaitNs: int64(h+6)*gap + int64(100+10*h), Kind: "mark", A: 0},
 			PAction{Kind: "autoall"}, PAction{Kind: "closeall"})
 
-		if v1 {
+		if v1 && !earlyGraceful {
 			sc.Ctl = append(sc.Ctl, PAction{Kind: "graceful"})
 		}
 	case "saturate", "single":
@@ -637,6 +651,14 @@ func genPrio(engine, prop string, r *simrt.SplitMix) *PrioSc {
 		manualHandlers()
 
 		settle := int64(60 + 6*h)
+
+		// v1: GracefulStop may be called at any time, also long before the inputs are closed;
+		// until they are, nothing about the distribution may change
+		earlyGraceful := v1 && r.Intn(3) == 0
+		if earlyGraceful {
+			sc.Ctl = append(sc.Ctl, PAction{WaitNs: int64(pick(r, 0, 0, 3, 30)), Kind: "graceful"})
+		}
+
 		sc.Ctl = append(sc.Ctl, PAction{WaitNs: settle, Kind: "mark", A: 0})
 
 		if sc.Class == "saturate" {
@@ -661,7 +683,7 @@ func genPrio(engine, prop string, r *simrt.SplitMix) *PrioSc {
 
 		sc.Ctl = append(sc.Ctl, PAction{Kind: "autoall"}, PAction{Kind: "closeall"})
 
-		if v1 {
+		if v1 && !earlyGraceful {
 			sc.Ctl = append(sc.Ctl, PAction{Kind: "graceful"})
 		}
 	case "stop":
@@ -762,6 +784,36 @@ func genPrio(engine, prop string, r *simrt.SplitMix) *PrioSc {
 			}
 		}
 
+		if prop == "C06" && r.Intn(3) == 0 {
+			sc.LateSilent = true
+			sc.Inputs, sc.Ctl = sc.Inputs[:0], sc.Ctl[:0]
+
+			for i, p := range prios {
+				in := PInput{Prio: p, Cap: pick(r, 1, 2, 4, 16), Close: true}
+
+				if i == 0 {
+					for k := 0; k < 70; k++ {
+						in.Bursts = append(in.Bursts, Burst{Delay: 50, N: 1})
+					}
+				} else {
+					in.Bursts = mkBursts(between(r, 0, 10))
+				}
+
+				sc.Inputs = append(sc.Inputs, in)
+			}
+
+			late := PInput{Prio: uint(pick(r, 6, 8, 50, 2000)), Cap: 0, Close: true, Late: true, Bursts: []Burst{{Delay: 2600, N: 1}}}
+			if r.Intn(3) == 0 {
+				late.Prio = prios[len(prios)-1] // replaces the channel of a configured priority
+			}
+
+			sc.Inputs = append(sc.Inputs, late)
+
+			sc.Ctl = append(sc.Ctl,
+				PAction{WaitNs: int64(pick(r, 100, 300, 700)), Kind: "add", A: len(sc.Inputs) - 1},
+				PAction{WaitNs: 1500, Kind: "mark", A: 0})
+		}
+
 		// every set of priorities the discipline passes through must be one the
 		// constructor would accept with this H (v1 has no check of its own; with too few
 		// handlers it documents that zero-share priorities stop being processed)
@@ -771,6 +823,12 @@ func genPrio(engine, prop string, r *simrt.SplitMix) *PrioSc {
 		sc.H = h
 
 		autoHandlers()
+
+		if sc.LateSilent {
+			for i := range sc.Handlers {
+				sc.Handlers[i].Delays = []int64{int64(pick(r, 0, 1, 2, 5))}
+			}
+		}
 
 		ns, steps := wait()
 		sc.Ctl = append(sc.Ctl, PAction{WaitNs: ns, WaitSteps: steps, Kind: "graceful"})
@@ -789,6 +847,10 @@ func genPrio(engine, prop string, r *simrt.SplitMix) *PrioSc {
 		default:
 			sc.BadOpt = pick(r, "nil-divider", "zero-h", "nil-output", "nil-feedback")
 		}
+	}
+
+	if engine == "prio2" && (prop == "C15" || prop == "C07" || prop == "C19") && r.Intn(4) == 0 {
+		sc.LateErr = true
 	}
 
 	sc.ReuseMap = r.Intn(4) == 0
@@ -1159,6 +1221,8 @@ func buildPrio(sc *PrioSc) (simrt.Config, func()) {
 		var (
 			outV2 <-chan types2.Prioritized[int]
 			outV1 chan prio1.Prioritized[int]
+
+			outSeenClosed = func() {}
 		)
 
 		newErr := func(err error) {
@@ -1271,7 +1335,18 @@ func buildPrio(sc *PrioSc) (simrt.Config, func()) {
 		}
 
 		// Err reader: its closure is the termination signal every engine has
+		outDone := make(chan struct{})
+		outSeenClosed = func() {
+			if simrt.AddVar(varOutSeen, 1) == 1 {
+				simrt.Close("env:handler", outDone)
+			}
+		}
+
 		simrt.GoEnv("err-reader", func() {
+			if sc.LateErr && outV2 != nil {
+				simrt.Recv2("env:err-wait", outDone)
+			}
+
 			for {
 				err, ok := simrt.Recv2("env:err", h.errCh)
 				if !ok {
@@ -1350,6 +1425,8 @@ func buildPrio(sc *PrioSc) (simrt.Config, func()) {
 						p, ok := simrt.Recv2("env:handler", outV2)
 						if !ok {
 							simrt.Note("out-closed", 0, 0)
+							outSeenClosed()
+
 							return
 						}
 
@@ -1405,6 +1482,8 @@ func buildPrio(sc *PrioSc) (simrt.Config, func()) {
 							p, ok := simrt.Recv2("env:handler", outV2)
 							if !ok {
 								simrt.Note("out-closed", int64(hi), 0)
+								outSeenClosed()
+
 								return
 							}
 
